@@ -38,7 +38,8 @@ def _refs_in_order(obj, out):
 
 
 class SimGet:
-    def __init__(self, sched, tape, max_pool=16, on_task_done=None):
+    def __init__(self, sched, tape, max_pool=16, on_task_done=None, instr_codes=()):
+        self.instr_codes = list(instr_codes)
         self.sched = sched
         self.tape = tape
         self.max_pool = max_pool
@@ -104,7 +105,15 @@ class SimGet:
         pool = 1 + self.tape.draw("sched.pool", self.max_pool)
         self.pools.append(pool)
         self.graph_shapes.append(len(order))
-        self.sched.run_graph(tasks, pool)
+        if self.instr_codes:
+            from .sched import set_instruction_events
+            set_instruction_events(self.instr_codes, True)
+            try:
+                self.sched.run_graph(tasks, pool)
+            finally:
+                set_instruction_events(self.instr_codes, False)
+        else:
+            self.sched.run_graph(tasks, pool)
 
         def fetch(k):
             if isinstance(k, list):
